@@ -71,6 +71,14 @@ def _(u):
     r = u.run(DEC, "get_log_likelihood", lp2, None, msk, False, record=False)
     same_tensor(u, "ll.masked-steps-zero", r, (B, T), lambda bb, tt: ite(msk.at(bb, tt), pre.at(bb, tt), 0))
     u.canary("ll.mask-inverted", r.at(b, t) == ite(msk.at(b, t), 0, pre.at(b, t)))
+    # (d) full table AND step flags (the path taken with return_entropy / store_all_logp / beam search): select, then zero the flagged steps
+    lp3b = u.tensor("logprobs3_masked", (B, T, N), "f")
+    u.requires(u.forall((B, T), lambda b, t: lp3b.at(b, t, act.at(b, t)) > -1000))
+    r = u.run(DEC, "get_log_likelihood", lp3b, act, msk, False, record=False)
+    same_tensor(u, "ll.full-table.masked-steps-zero", r, (B, T), lambda bb, tt: ite(msk.at(bb, tt), lp3b.at(bb, tt, act.at(bb, tt)), 0))
+    r = u.run(DEC, "get_log_likelihood", lp3b, act, msk, True, record=False)
+    want2 = ops.reduce("sum", mk((B, T), "f", lambda I: ite(msk.at(I[0], I[1]), lp3b.at(I[0], I[1], act.at(I[0], I[1])), 0)), 1, label="llsum-masked")
+    same_tensor(u, "ll.full-table.masked-sum", r, (B,), lambda bb: want2.at(bb))
 
 
 def _strategy(u, cls, **attrs):
